@@ -54,6 +54,7 @@ def run(check):
     for consts, ws in generated:
         runs += [(p, t, consts['NRoots']) for p, t in usimrun.replay(check, ws, consts, limit=max(lim, 60000))]
     runs += usimrun.random_runs(check)     # random programs over the whole vocabulary
+    runs += usimrun.teardown_runs(check)   # holders / waiters torn down in every way, then inspected
     # time conditions on float dates awaited at fractional / huge / infinite clock readings (dates mapped to ranks)
     import random
     import storm
